@@ -19,6 +19,9 @@ type edgeReq struct {
 	Pol  bool
 	// Match, when set, replaces Cond/Pol: it sees the normalised condition and the polarity of the edge taken.
 	Match func(cond ssa.Value, pol bool) bool
+	// Instr, when set, is an alternative way to meet the requirement: the path executes an instruction satisfying it
+	// (e.g. a call to a helper whose postcondition is the required fact).
+	Instr func(in ssa.Instruction) bool
 }
 
 // pathsMissing explores forward from `start` (exclusive; if startEdge >= 0 exploration begins on that successor edge
@@ -33,6 +36,15 @@ func pathsMissing(start ssa.Instruction, startEdge int, isTarget, avoid func(ssa
 // also tracks, per path, which constant a phi received from the edge it was entered by, and prunes branches whose
 // condition compares such a phi with a constant (e.g. `l := -1; if … { l = parsed }; if l < 0 {…}`).
 func pathsMissingX(start ssa.Instruction, startEdge int, isTarget, avoid func(ssa.Instruction) bool, reqs []edgeReq, infeasible func(cond ssa.Value, pol bool) bool) (missing []string, reached int) {
+	return pathsMissingAt(start.Block(), instrIndex(start)+1, startEdge, isTarget, avoid, reqs, infeasible)
+}
+
+// pathsMissingEntry: as pathsMissingX, exploring from the entry of f.
+func pathsMissingEntry(f *ssa.Function, isTarget, avoid func(ssa.Instruction) bool, reqs []edgeReq) (missing []string, reached int) {
+	return pathsMissingAt(f.Blocks[0], 0, -1, isTarget, avoid, reqs, nil)
+}
+
+func pathsMissingAt(startBlock *ssa.BasicBlock, startIdx int, startEdge int, isTarget, avoid func(ssa.Instruction) bool, reqs []edgeReq, infeasible func(cond ssa.Value, pol bool) bool) (missing []string, reached int) {
 	type st struct {
 		b    *ssa.BasicBlock
 		mask int
@@ -138,7 +150,7 @@ func pathsMissingX(start ssa.Instruction, startEdge int, isTarget, avoid func(ss
 				}
 				continue
 			}
-			if rq.Pol == pol && rq.Cond(g.Cond) {
+			if rq.Cond != nil && rq.Pol == pol && rq.Cond(g.Cond) {
 				m |= 1 << k
 			}
 		}
@@ -166,6 +178,11 @@ func pathsMissingX(start ssa.Instruction, startEdge int, isTarget, avoid func(ss
 			if avoid != nil && avoid(in) {
 				return
 			}
+			for k, rq := range reqs {
+				if rq.Instr != nil && mask&(1<<k) == 0 && rq.Instr(in) {
+					mask |= 1 << k
+				}
+			}
 			switch t := in.(type) {
 			case *ssa.Return, *ssa.Panic:
 				return
@@ -186,12 +203,12 @@ func pathsMissingX(start ssa.Instruction, startEdge int, isTarget, avoid func(ss
 		}
 	}
 	if startEdge >= 0 {
-		b := start.Block()
+		b := startBlock
 		if iff, ok := b.Instrs[len(b.Instrs)-1].(*ssa.If); ok {
 			step(b, iff, startEdge, 0, nil)
 		}
 	} else {
-		walk(start.Block(), instrIndex(start)+1, 0, nil)
+		walk(startBlock, startIdx, 0, nil)
 	}
 	for k := range miss {
 		missing = append(missing, k)
